@@ -95,4 +95,82 @@ theorem execList_ok (d : Nat) (s : PState) (h : s.flag = decide (d = 0)) : (l : 
         · exact ha1 rec hr
 end
 
+/-! ## flat event histories: the Spec's `ctxOk` holds on the model's trace -/
+
+
+def enOf (st : List Bool) : Bool := (st.filter id).length == 0
+
+/-- the Spec's stack of "this block really disables" against the model's stack of restore tokens -/
+def RelS : List Bool → List (Option Bool) → Prop
+  | [], [] => True
+  | false :: st, none :: cs => RelS st cs
+  | true :: st, some old :: cs => old = enOf st ∧ RelS st cs
+  | _, _ => False
+
+theorem enOf_false (st : List Bool) : enOf (false :: st) = enOf st := by simp [enOf]
+theorem enOf_true (st : List Bool) : enOf (true :: st) = false := by simp [enOf]
+
+theorem rel_exit (b : Bool) (st : List Bool) (c : Ctx) (hr : RelS (b :: st) c.stack) (he : c.enabled = enOf (b :: st)) :
+    RelS st (c.step .exitNormal).stack ∧ (c.step .exitNormal).enabled = enOf st := by
+  obtain ⟨en, stack⟩ := c
+  match b, stack, hr with
+  | false, none :: cs, hr =>
+    simp only [RelS] at hr
+    exact ⟨by simpa [Ctx.step] using hr, by simpa [Ctx.step, enOf_false] using he⟩
+  | true, some old :: cs, hr =>
+    simp only [RelS] at hr
+    exact ⟨by simpa [Ctx.step] using hr.2, by simpa [Ctx.step] using hr.1⟩
+  | false, [], hr => simp [RelS] at hr
+  | true, [], hr => simp [RelS] at hr
+  | false, some _ :: _, hr => simp [RelS] at hr
+  | true, none :: _, hr => simp [RelS] at hr
+
+theorem trace_openDisables : ∀ (evs : List CtxEv) (st : List Bool) (c : Ctx) (ds : List Nat),
+    RelS st c.stack → c.enabled = enOf st → openDisables st evs = some ds →
+    Ctx.trace c evs = ds.map (· == 0)
+  | [], st, c, ds, _, _, h => by
+    simp only [openDisables, Option.some.injEq] at h; subst h; rfl
+  | .enter ig :: es, st, c, ds, hr, he, h => by
+    simp only [openDisables, Option.map_eq_some_iff] at h
+    obtain ⟨r, hr', rfl⟩ := h
+    cases ig with
+    | true =>
+      have ih := trace_openDisables es (false :: st) (c.step (.enter true)) r
+        (by simpa [Ctx.step, RelS] using hr) (by simpa [Ctx.step, enOf_false] using he) (by simpa using hr')
+      simp only [Ctx.trace, List.map_cons, ih]
+      congr 1
+    | false =>
+      have ih := trace_openDisables es (true :: st) (c.step (.enter false)) r
+        (by simp only [Ctx.step, RelS]; exact ⟨he, hr⟩) (by simp [Ctx.step, enOf_true]) (by simpa using hr')
+      simp only [Ctx.trace, List.map_cons, ih]
+      congr 1
+  | .exitNormal :: es, [], c, ds, _, _, h => by simp [openDisables] at h
+  | .exitExc :: es, [], c, ds, _, _, h => by simp [openDisables] at h
+  | .exitNormal :: es, b :: st, c, ds, hr, he, h => by
+    simp only [openDisables, Option.map_eq_some_iff] at h
+    obtain ⟨r, hr', rfl⟩ := h
+    obtain ⟨h1, h2⟩ := rel_exit b st c hr he
+    have ih := trace_openDisables es st (c.step .exitNormal) r h1 h2 hr'
+    simp only [Ctx.trace, List.map_cons, ih]
+    congr 1
+  | .exitExc :: es, b :: st, c, ds, hr, he, h => by
+    simp only [openDisables, Option.map_eq_some_iff] at h
+    obtain ⟨r, hr', rfl⟩ := h
+    obtain ⟨h1, h2⟩ := rel_exit b st c hr he
+    have e : c.step .exitExc = c.step .exitNormal := rfl
+    have ih := trace_openDisables es st (c.step .exitNormal) r h1 h2 hr'
+    simp only [Ctx.trace, List.map_cons, e, ih]
+    congr 1
+
+/-- the Spec's clause about the switch holds on the model's trace of every event history -/
+theorem trace_meets_ctxOk (evs : List CtxEv) : ctxOk evs (Ctx.trace {} evs) = true := by
+  unfold ctxOk
+  cases h : openDisables [] evs with
+  | none => rfl
+  | some ds =>
+    simp only
+    rw [trace_openDisables evs [] {} ds (by simp [RelS]) (by simp [enOf]) h]
+    simp
+
+
 end Pyrtma.Validators
